@@ -196,8 +196,12 @@ class TzInterp:
                     return DTv(0, 0, 'utc', True, epoch=1)
                 return Unknown('datetime constructor')
             tgt = self.repo.lookup(d) if d else None
+            if tgt is None and isinstance(f, ast.Attribute) and isinstance(
+                    f.value, ast.Name) and f.value.id in self.mod.classes:
+                # a static helper kept in a namespace class
+                tgt = self.mod.classes[f.value.id].methods.get(f.attr)
             if isinstance(tgt, model.FuncInfo) and tgt.module is self.mod:
-                if tgt.name == '_get_tz' and e.args:
+                if self.is_zone_builder(tgt) and e.args:
                     return Zone(model.norm(e.args[0]))
                 s = self.summary(tgt)
                 if s is not None and e.args:
@@ -209,6 +213,22 @@ class TzInterp:
         if isinstance(e, ast.Constant):
             return e.value
         return Unknown(type(e).__name__)
+
+    def is_zone_builder(self, fi):
+        """A one-parameter helper that turns an offset into a tzinfo: it
+        returns tz.tzoffset(...) / datetime.timezone(...) built from its
+        parameter (how it is built is R20d's obligation)."""
+        ps = [p for p in fi.params() if p not in ('self', 'cls')]
+        if len(ps) != 1:
+            return False
+        for c in model.calls_in(fi.node):
+            d = self.repo.resolve(self.mod, c.func)
+            if d in ('dateutil.tz.tzoffset', 'datetime.timezone',
+                     'dateutil.tz.tz.tzoffset') and ps[0] in {
+                    n.id for a in c.args for n in ast.walk(a)
+                    if isinstance(n, ast.Name)}:
+                return True
+        return False
 
     def _is_type(self, e):
         d = self.repo.resolve(self.mod, e)
@@ -536,7 +556,8 @@ def check_units(repo, rep):
     body = model.strip_docstring(f.node.body)
     v = body[-1].value if isinstance(body[-1], ast.Return) else None
     if v is not None:
-        v = norm.subst_locals(f.node, v)
+        v = norm.unroll_constant_tables(repo, mod, norm.subst_locals(
+            f.node, v))
     # a linear form in .days, .seconds, .microseconds
     coef = {}
 
